@@ -199,6 +199,9 @@ def run(ctx: Ctx) -> None:
     ctx.call(occupied_bounce, "3")
     ctx.call(exit_shape, "4")
     ctx.call(bounded_wait, "5")
+    from ..kinds import signature_defaults
+
+    ctx.call(signature_defaults, "5d", {"plugins/runner.py:TestRunner.run_test_node": {"status_timeout": "10"}}, "bounded result wait")
     ctx.call(placeholder_resolved, "6")
     ctx.call(N.run_decision_table, "7r")
     ctx.call(N.clean_decision_table, "7c")
